@@ -117,6 +117,8 @@ def reverse_features(s, A, B, D, R, X, o):
     f = set()
     uo_groups = {}
     for n, op, own, par in walk_eff(D):
+        if n.sn.is_userord() and own == "replace" and meta(n, anchor_name(n.sn)) == meta(n, "orig-" + anchor_name(n.sn)):
+            f.add("uo-equal-anchors")            # F15(d)
         if n.sn.is_userord() and n.sn.dup_inst() and own == "replace":
             f.add("uo-position-move")            # F15(c): positions count the moved instance itself
         if n.sn.is_userord() and own in ("create", "delete", "replace"):
@@ -133,6 +135,8 @@ def reverse_features(s, A, B, D, R, X, o):
     if X is not None:
         if obs_shape(X, o) != obs_shape(A, o) and obs_shape(X, o, True) == obs_shape(A, o, True):
             f.add("differs-only-in-userord-order")
+    else:
+        f.add("result-not-dumped")                   # apply failed, or equal instances next to default ones before re-validation
     return sorted(f)
 
 
@@ -255,7 +259,13 @@ def classify(component, what, case):
         if "lyd_diff_is_redundant" in st and "null pointer" in st and "lyd_diff_merge_r" in st:
             return "F133"
         return None
+    if law == "applyptr" and "top-level-first-instance-moved-behind-anchor" in feat:
+        # F134: lyd_diff_insert sets *first_node to the anchor when the first sibling is moved behind it
+        return "F134"
     if law == "reverse":
+        # F15(d): orig-value = value = '' (first place / predecessor with the empty value): lyd_change_meta reports "no change"
+        if verdict == "Reverse:Enot" and "uo-equal-anchors" in feat:
+            return "F15"
         # F15(b): a reversed delete of (or above) a user-ordered instance is a create without key/value/position anchor
         if verdict == "E:Einval" and "uo-create-without-anchor" in feat:
             return "F15"
@@ -267,6 +277,11 @@ def classify(component, what, case):
             return "F15"
         # ... or the result has the right content in another order
         if verdict == "differs" and "differs-only-in-userord-order" in feat and "uo-op" in feat:
+            return "F15"
+        # ... the result was not dumped (duplicate instances next to default ones before re-validation, no LYD_DIFF_DEFAULTS):
+        # accepted only for the shapes that are F15 for certain
+        if verdict == "differs" and "result-not-dumped" in feat and not case.get("opts") and \
+                ({"uo-position-move", "uo-several-ops-in-group"} & feat):
             return "F15"
     if law == "merge":
         o, mo = case.get("opts"), case.get("mopts")
@@ -310,7 +325,16 @@ def run_impl(cx, schemas, lines):
         if not lost:
             break
         rep.update(cx.run_impl(HARNESS, head + lost, component=COMP, env=ENV))
+    # implementation-only trailing field P:<n> (stale `data` pointer after apply): taken off the reply, kept aside
+    for i, r in rep.items():
+        if r and r[-1].startswith("P:"):
+            if r[-1] != "P:0":
+                STALE[i] = r[-1]
+            rep[i] = r[:-1]
     return rep
+
+
+STALE = {}
 
 
 def run_model(cx, schemas, lines):
@@ -490,9 +514,9 @@ def process(cx, schemas, cases, tag, reverse=True, merge=True, laws_every=4, mer
     for i, (c, o, mo) in idx.items():
         r = ri.get(i, ["err", "NoReply"])
         if mo is None:
-            eval_reverse(cx, c, o, r)
+            eval_reverse(cx, c, o, r, i)
         else:
-            eval_merge(cx, c, o, mo, r)
+            eval_merge(cx, c, o, mo, r, i)
     # ---- 4. more laws (impl only) on a subset
     if laws_every:
         lines, idx = [], {}
@@ -536,9 +560,13 @@ def parse_reply(s, r):
     return R, X, (r[2] if r[2].startswith("E:") else r[3])
 
 
-def eval_reverse(cx, c, o, r):
+def eval_reverse(cx, c, o, r, rid=None):
     if r[:2] in (["err", "Crash"], ["err", "Timeout"]):
         return
+    if rid in STALE:
+        STALE.pop(rid)
+        cx.fail(COMP, "lyd_diff_apply_all(&data, reversed diff) leaves `data` pointing behind the first sibling",
+                payload(c, "applyptr", "stale", o, None, ["top-level-first-instance-moved-behind-anchor"], r))
     R, X, verdict = parse_reply(c.s, r)
     cx.dist["law:reverse:" + ("holds" if verdict == "same" else "fails")] += 1
     if verdict == "same":
@@ -558,9 +586,13 @@ def eval_reverse(cx, c, o, r):
     cx.fail(COMP, "apply(B, reverse(diff(A,B))) is not A: %s%s" % (verdict, " [LYD_DIFF_DEFAULTS]" if o else ""), p)
 
 
-def eval_merge(cx, c, o, mo, r):
+def eval_merge(cx, c, o, mo, r, rid=None):
     if r[:2] in (["err", "Crash"], ["err", "Timeout"]):
         return
+    if rid in STALE:
+        STALE.pop(rid)
+        cx.fail(COMP, "lyd_diff_apply_all(&data, merged diff) leaves `data` pointing behind the first sibling",
+                payload(c, "applyptr", "stale", o, mo, ["top-level-first-instance-moved-behind-anchor"], r))
     M, X, verdict = parse_reply(c.s, r)
     s = c.s
     A, B, C = tg.untok(s, c.a), tg.untok(s, c.b), tg.untok(s, c.c)
@@ -576,7 +608,11 @@ def eval_merge(cx, c, o, mo, r):
     if ok:
         return
     if uo:
-        return          # user-ordered merge is documented as lossy: outside the property
+        # user-ordered (incl. key-less / state) lists are outside the merge law (lyd_diff_is_redundant documents the merge of
+        # moves as lossy); how often the result differs in more than the order is reported in the distribution (finding F132)
+        if verdict == "differs" and "differs-only-in-userord-order" not in feat:
+            cx.dist["law:merge:fails:userord: content differs, not only the order (F132, outside the law)"] += 1
+        return
     feat = feat + list(c.f1.get(o, [])) + list(c.f2.get(o, []))
     through = c06_through(s, A, C, M, verdict, o, list(c.f1.get(o, [])) + list(c.f2.get(o, [])))
     if through:
@@ -614,7 +650,7 @@ def eval_more(cx, c, o, mo, r):
                 if k == "rev" and v[k] == "Eint" and "move-with-content" in c.f1.get(o, []):
                     cx.dist["lawr:outside(C06 finding F56)"] += 1
                     break
-                if k in ("rev2", "invol", "rr") and uo:
+                if k in ("rev", "rev2", "invol", "rr") and uo:
                     cx.dist["lawr:%s-fails:userord" % k] += 1         # covered by the reverse law / F15
                     continue
                 if k == "rr" and c06.classify(COMP, "", {"law": "cmp", "verdict": "0", "features": c.f1.get(o, []), "opts": o}):
